@@ -59,7 +59,7 @@ class CacheCall:
     def key(self):
         import tempfile, shutil, os, treelog
         from nutils import cache
-        d = tempfile.mkdtemp(prefix='c17cache')
+        d = tempfile.mkdtemp(prefix='cache', dir=os.environ.get('VF_C17_TMP') or None)
         try:
             with treelog.set(treelog.NullLog()), cache.enable(d):
                 r = self.func(*self.args, **self.kwargs)
@@ -308,7 +308,14 @@ class Registry:
             assert len(s) == len(items)
             return s if k == 'set' else frozenset(items)
         if k == 'fms':
-            return types.frozenmultiset([self.build(x) for x in c])
+            once = {}
+            for x in c:      # equal terms denote the same object occurring several times
+                if json.dumps(x) not in once:
+                    once[json.dumps(x)] = self.build(x)
+            items = [once[json.dumps(x)] for x in c]
+            # the model never puts python-equal items of different terms in a multiset
+            assert len(collections.Counter(items)) == len({json.dumps(x) for x in c}) or any(x != x for x in items)
+            return types.frozenmultiset(items)
         if k == 'hfunc':
             ident = self.build(c[0])
             @types.hashable_function(ident)
